@@ -1154,3 +1154,725 @@ def small_header(rng, version=None, fmt=None):
     version = version or rng.choice(VERSIONS)
     fmt = rng.choice([f for f in COMPAT[version] if f in (0, 1, 2, 6)]) if fmt is None else fmt
     return rand_header(rng, version=version, fmt=fmt, nvlrs=rng.choice([0, 1]))
+
+
+# =================================================================================
+# Round-6 additions (C03 / C06 / C19 group). Everything below is NEW: nothing above was changed.
+# RICH SESSIONS: one writer / appender session in which (1) every chunk is a SELECTION of a source cloud made in every way the API offers
+# (slice, stepped / negative slice, boolean mask as ndarray or python list, index ndarray, python list, tuple, python int, the whole record)
+# from every record class (PackedPointRecord, ScaleAwarePointRecord with the file's or another scaling, LasData.points[..], LasData[..].points);
+# (2) the source's PointFormat OBJECT is mutated in place between two chunks (LasData.add_extra_dim / remove_extra_dim,
+# PointFormat.add_extra_dimension) and the source is used again; (3) OTHER files carrying the same kinds of known VLRs are read / written /
+# appended to / built WHILE the session is open (class-level and module-level state); (4) the open writer's / appender's OWN header is edited
+# between chunks (VLR appended / removed / grown, extra header bytes, strings, an extra dimension); (5) the session ends in every way: close,
+# close twice, with-exit, close inside the with-block, close then `with`, close then more chunks then close - with closefd False and True.
+# What a chunk must be stored as is computed by numpy on a private copy of the source array taken before the call (no laspy code).
+# =================================================================================
+class LogKeep(LogStream3):
+    """LogStream3 whose contents stay readable (getvalue) after it was closed: sessions run with closefd=True"""
+
+    def __init__(self, initial=b""):
+        super().__init__(initial)
+        self._kept = None
+
+    def close(self):
+        if not self.closed:
+            self._kept = io.BytesIO.getvalue(self)
+        super().close()
+
+    def getvalue(self):
+        return self._kept if self.closed else super().getvalue()
+
+
+KNOWN_KINDS = ["classification", "waveform", "geokeys", "geodoubles", "geoascii", "wkt-math", "wkt-cs"]
+
+
+def known_vlr(rng, kind, size=None, n=None):
+    """a plain VLR carrying the user id / record id of one of laspy's KNOWN record classes with a payload that class parses and
+    re-serialises to the same bytes; `size`: payload length wanted (the same kind of record with other contents in another file)"""
+    import laspy
+    letters = [c for c in range(97, 123)]
+    if kind == "classification":
+        k = (size // 16) if size is not None else rng.choice([1, 2, 3, 6])
+        ids = rng.sample(range(256), k) if n is None else n
+        pay = b"".join(struct.pack("<B15s", i, rand_ascii(rng, rng.choice([1, 4, 9, 15]), letters).encode()) for i in ids)
+        return laspy.VLR("LASF_Spec", 0, "Classification Lookup", pay)
+    if kind == "waveform":
+        pay = struct.pack("<BBLLdd", rng.choice([8, 16]), rng.randrange(4), rng.randrange(1, 500), rng.randrange(1, 1000), rng.choice([1.0, 0.5, 2.5]), rng.uniform(-5, 5))
+        return laspy.VLR("LASF_Spec", rng.randrange(100, 356), rand_ascii(rng, 5, letters), pay)
+    if kind == "geokeys":
+        k = ((size - 8) // 8) if size is not None else rng.choice([1, 2, 4])
+        pay = struct.pack("<4H", 1, 1, 0, k) + b"".join(struct.pack("<4H", rng.choice([1024, 2048, 3072, 4099]), rng.choice([0, 34736, 34737]), 1, rng.randrange(1, 40000)) for _ in range(k))
+        return laspy.VLR("LASF_Projection", 34735, "GeoTIFF GeoKeyDirectoryTag", pay)
+    if kind == "geodoubles":
+        k = (size // 8) if size is not None else rng.choice([1, 3])
+        return laspy.VLR("LASF_Projection", 34736, "GeoTIFF GeoDoubleParamsTag", b"".join(struct.pack("<d", rng.uniform(-1e6, 1e6)) for _ in range(k)))
+    if kind == "geoascii":
+        k = size if size is not None else rng.choice([1, 8, 30])
+        s = rand_ascii(rng, k, letters + [124])
+        return laspy.VLR("LASF_Projection", 34737, "GeoTIFF GeoAsciiParamsTag", s.encode())
+    k = (size - 1) if size is not None else rng.choice([5, 20, 60])
+    s = 'GEOGCS["' + rand_ascii(rng, max(k - 10, 0), letters) + '"]' if k >= 10 else rand_ascii(rng, k, letters)
+    return laspy.VLR("LASF_Projection", 2111 if kind == "wkt-math" else 2112, "" if kind == "wkt-math" else "OGC Transformation Record", s.encode() + b"\0")
+
+
+def known_kind_of(v):
+    return {("LASF_Spec", 0): "classification", ("LASF_Projection", 34735): "geokeys", ("LASF_Projection", 34736): "geodoubles", ("LASF_Projection", 34737): "geoascii",
+            ("LASF_Projection", 2111): "wkt-math", ("LASF_Projection", 2112): "wkt-cs"}.get((v.user_id, v.record_id), "waveform" if v.user_id == "LASF_Spec" and 100 <= v.record_id < 356 else None)
+
+
+def known_vlrs(rng, like=None):
+    """a list of plain VLRs of known kinds (1..4 kinds, each once; the classification lookup more often than not); like=<such a list>: the
+    same kinds with payloads of the SAME sizes (and for a classification lookup the same class numbers) but other contents"""
+    if like is not None:
+        out = []
+        for v in like:
+            kd = known_kind_of(v)
+            ids = [b for b in v.record_data[::16]] if kd == "classification" else None
+            out.append(known_vlr(rng, kd, size=len(v.record_data), n=ids))
+        return out
+    kinds = rng.sample(KNOWN_KINDS, rng.choice([1, 2, 4]))
+    if "classification" not in kinds and rng.random() < 0.6:
+        kinds.append("classification")
+    return [known_vlr(rng, k) for k in kinds]
+
+
+RS_SELECTIONS = ["slice", "slice-step", "slice-neg", "mask", "mask-list", "ndarray", "ndarray-neg", "list", "list", "tuple", "tuple", "int", "int-neg", "empty-list", "whole", "list-dup"]
+RS_SOURCES = ["packed", "scaled", "scaled", "lasdata.points", "lasdata.points", "lasdata[sel].points", "points-view", "reader.read_points", "chunk_iterator"]
+
+
+def rs_selection(rng, n, kind):
+    """(the python object handed to laspy's __getitem__, the numpy index giving the same records from a 1-d array) of a cloud of n >= 2 points"""
+    some = sorted(rng.sample(range(n), rng.choice([1, 2, min(3, n)])))
+    if kind == "slice":
+        a = rng.randrange(0, n)
+        b = rng.randrange(a, n + 1)
+        return slice(a, b), np.arange(n)[a:b]
+    if kind == "slice-step":
+        s = slice(rng.choice([None, 0, 1]), None, rng.choice([2, 3, -1, -2]))
+        return s, np.arange(n)[s]
+    if kind == "slice-neg":
+        s = slice(-rng.randrange(1, n + 1), rng.choice([None, -1]))
+        return s, np.arange(n)[s]
+    if kind in ("mask", "mask-list"):
+        m = np.zeros(n, dtype=bool)
+        m[some] = True
+        return (m if kind == "mask" else [bool(x) for x in m]), np.flatnonzero(m)
+    if kind == "ndarray":
+        rng.shuffle(some)
+        return np.array(some, dtype=rng.choice([np.int64, np.int32, np.uint8, np.intp])), np.array(some, dtype=np.int64)
+    if kind == "ndarray-neg":
+        ix = [i - n for i in some]
+        return np.array(ix, dtype=np.int64), np.array(some, dtype=np.int64)
+    if kind == "list":
+        rng.shuffle(some)
+        return list(some), np.array(some, dtype=np.int64)
+    if kind == "list-dup":
+        ix = [some[0], some[-1], some[0]]
+        return ix, np.array(ix, dtype=np.int64)
+    if kind == "tuple":
+        return tuple(some), np.array(some, dtype=np.int64)
+    if kind == "int":
+        i = rng.randrange(n)
+        return i, np.array([i], dtype=np.int64)
+    if kind == "int-neg":
+        i = rng.randrange(n)
+        return i - n, np.array([i], dtype=np.int64)
+    if kind == "empty-list":
+        return [], np.array([], dtype=np.int64)
+    return slice(None), np.arange(n)
+
+
+def rs_label(ix):
+    if isinstance(ix, np.ndarray):
+        return f"ndarray({ix.dtype}){ix.tolist()}"
+    return repr(ix)
+
+
+def rs_source(rng, h, n, other_scaling):
+    """a source cloud (a LasData of its OWN header: a deep copy of the file's point format, the file's or another scaling) of n points with
+    small coordinates (they stay representable in the file's grid) whose return numbers sweep the range of the format"""
+    import copy
+    import laspy
+    sh = laspy.LasHeader(point_format=copy.deepcopy(h.point_format), version=str(h.version))
+    sc, of = np.array(h.scales, dtype=np.float64).copy(), np.array(h.offsets, dtype=np.float64).copy()
+    if other_scaling:
+        sc = sc * rng.choice([10.0, 0.5, 2.0])
+        of = of + rng.choice([0.0, 1.0, -2.5])
+    sh.scales, sh.offsets = sc, of
+    rec0 = sweep_points(rng, h, n, start=rng.randrange(16))
+    for kx in "XYZ":
+        rec0.array[kx] = np.array([rng.randrange(-1000, 1001) for _ in range(n)], dtype=np.int32)
+    rec0.array["X"] = (np.arange(n, dtype=np.int32) * 7 + rng.randrange(-900, 900)).astype(np.int32)   # all points distinct
+    las = laspy.LasData(sh)
+    las.points = laspy.ScaleAwarePointRecord(rec0.array.copy(), sh.point_format, sc.copy(), of.copy())
+    return las
+
+
+def rs_take(src, source, ix):
+    """the chunk: a selection of the source cloud through the public API"""
+    import laspy
+    p = src.points
+    if source == "packed":
+        return laspy.PackedPointRecord(p.array, p.point_format)[ix]
+    if source == "scaled":
+        return laspy.ScaleAwarePointRecord(p.array, p.point_format, p.scales, p.offsets)[ix]
+    if source == "lasdata.points":
+        return p[ix]
+    if source == "lasdata[sel].points":
+        return src[ix].points
+    if source in ("reader.read_points", "chunk_iterator"):
+        # the cloud written to a file of its own and read back by a reader: the chunks of a reader are what programs usually append
+        b = io.BytesIO()
+        src.write(b)
+        b.seek(0)
+        with laspy.open(b, closefd=False) as rd:
+            if source == "reader.read_points":
+                return rd.read_points(len(p))[ix]
+            for c in rd.chunk_iterator(len(p) + 1):
+                return c[ix]
+        return p[0:0]
+    # a selection of a selection (a view of a view)
+    return p[:][ix]
+
+
+def rs_interfere(rng, how, twin, twin_h, h):
+    """something a program does with OTHER files / objects while a session is open; must not touch the session"""
+    import laspy
+    from laspy.vlrs import known
+    from laspy.vlrs.vlrlist import VLRList
+    if how == "read":
+        las = laspy.read(io.BytesIO(twin))
+        return len(las.vlrs)
+    if how == "open-header":
+        with laspy.open(io.BytesIO(twin)) as rd:
+            for _ in rd.chunk_iterator(2):
+                pass
+            return len(rd.header.vlrs)
+    if how == "read+write":
+        las = laspy.read(io.BytesIO(twin))
+        out = io.BytesIO()
+        las.write(out)
+        return len(out.getvalue())
+    if how == "append-other":
+        b = io.BytesIO(twin)
+        with laspy.open(b, mode="a", closefd=False) as a2:
+            a2.append_points(sweep_points(rng, twin_h, 2))
+        return len(b.getvalue())
+    if how == "write-other":
+        return len(write_las(twin_h, sweep_points(rng, twin_h, 3)))
+    if how == "known-objects":
+        # objects of every known record class built and filled by hand, and parsed from the other file's raw records
+        lk = known.ClassificationLookupVlr()
+        for i in rng.sample(range(256), 3):
+            lk[i] = rand_ascii(rng, 6, [c for c in range(97, 123)])
+        known.WktCoordinateSystemVlr('GEOGCS["other"]').record_data_bytes()
+        ga = known.GeoAsciiParamsVlr()
+        ga.parse_record_data(b"other|strings")
+        gd = known.GeoDoubleParamsVlr()
+        gd.parse_record_data(struct.pack("<2d", 1.5, -2.5))
+        for v in twin_h.vlrs:
+            known.vlr_factory(v)
+        return len(lk.record_data_bytes())
+    if how == "create":
+        las = laspy.create(point_format=h.point_format.id, file_version=str(h.version))
+        las.add_extra_dim(laspy.ExtraBytesParams("other_" + rand_ascii(rng, 3, [c for c in range(97, 123)]), rng.choice(["u2", "f4", "3u1"])))
+        las.vlrs.append(rand_vlr(rng))
+        las.header.scales = np.array([3.0, 3.0, 3.0])
+        return len(las.vlrs)
+    # a fresh header and a fresh LasData whose default attributes are modified in place
+    hh = laspy.LasHeader()
+    hh.vlrs.append(rand_vlr(rng))
+    hh.scales[0] = 123.0
+    hh.offsets[1] = -5.0
+    hh.number_of_points_by_return[0] = 9
+    ld = laspy.LasData(laspy.LasHeader(point_format=h.point_format.id, version=str(h.version)))
+    ld.vlrs.extend(twin_h.vlrs)
+    ld.evlrs = VLRList([rand_vlr(rng)])
+    return 0
+
+
+RS_INTERFERE = ["read", "read", "open-header", "read+write", "append-other", "write-other", "known-objects", "create", "defaults"]
+RS_EDITS = ["vlr+records", "vlr+records", "vlr+", "vlr-pop", "vlr-grow", "known-edit", "extra_header_bytes", "extra_vlr_bytes", "string", "add_extra_dim"]
+RS_ENDS = [["C"], ["C"], ["C", "C"], ["W"], ["WC"], ["WC"], ["C", "W"], ["C", "P", "C"], ["C", "P", "C"], ["WC", "C"], ["C", "C", "P", "W"]]
+
+
+def rs_edit_header(rng, hd, how, ps):
+    """an edit of the OPEN writer's / appender's own header; returns a short description (None: not applicable)"""
+    import laspy
+    if how == "vlr+records":
+        k = rng.choice([1, 1, 2])
+        pay = ((-54) % ps or ps) + (k - 1) * ps
+        if pay > 65000:
+            return None
+        hd.vlrs.append(laspy.VLR("late", 2, "added while open", bytes(rng.randrange(256) for _ in range(pay))))
+        return f"VLR of 54+{pay} bytes (= {(54 + pay) // ps} records) appended to .header.vlrs"
+    if how == "vlr+":
+        v = rand_vlr(rng, 80)
+        hd.vlrs.append(v)
+        return f"VLR of 54+{len(v.record_data)} bytes appended to .header.vlrs"
+    if how == "vlr-pop":
+        if not len(hd.vlrs):
+            return None
+        hd.vlrs.pop()
+        return "last VLR removed from .header.vlrs"
+    if how == "vlr-grow":
+        plain = [v for v in hd.vlrs if type(v).__name__ == "VLR"]
+        if not plain:
+            return None
+        v = rng.choice(plain)
+        k = rng.choice([1, ps, 2 * ps])
+        v.record_data = bytes(v.record_data) + bytes(k)
+        return f"payload of a VLR of .header.vlrs grown by {k} bytes"
+    if how == "known-edit":
+        lk = [v for v in hd.vlrs if type(v).__name__ == "ClassificationLookupVlr"]
+        if not lk:
+            return None
+        free = [i for i in range(256) if i not in lk[0].lookups]
+        lk[0][rng.choice(free)] = "added"
+        return "one class added to the classification lookup of .header.vlrs (16 bytes more)"
+    if how == "extra_header_bytes":
+        hd.extra_header_bytes = bytes(len(hd.extra_header_bytes) + rng.choice([1, ps, 3]))
+        return f".header.extra_header_bytes set to {len(hd.extra_header_bytes)} bytes"
+    if how == "extra_vlr_bytes":
+        hd.extra_vlr_bytes = bytes(len(hd.extra_vlr_bytes) + rng.choice([1, ps, 5]))
+        return f".header.extra_vlr_bytes set to {len(hd.extra_vlr_bytes)} bytes"
+    if how == "string":
+        hd.generating_software = rand_ascii(rng, rng.choice([0, 7, 32]))
+        return ".header.generating_software changed (same field width)"
+    hd.add_extra_dim(laspy.ExtraBytesParams("late_" + rand_ascii(rng, 2, [c for c in range(97, 123)]), rng.choice(["u1", "u2", "f8"])))
+    return "an extra dimension added to .header (point size and extra-bytes VLR change)"
+
+
+def rs_session(rng, kind, thorough=False, rescale=True, edits=True, ends=None, version=None):
+    """generates AND runs one rich session of a writer (kind 'writer') or an appender ('appender') on laspy. Returns a dict:
+    desc (JSON-able: enough to read what was done), base (the file before: b'' for a writer), ops (every low-level write / truncate in
+    order), final (the destination afterwards), ps, accepted (list of private records the session accepted, with the scaling they were given
+    in), accepted_bytes (what the accepted chunks must be stored as; None when a chunk had to be rescaled), orig (the original's records),
+    outs (per chunk: dict label, n, outcome, expected, file_unchanged, rec_unchanged), closes (outcomes of the closing calls), edited,
+    after_close (a chunk was accepted after a close), nclose, header (the header the file was created from), evl, problems (what the generator
+    itself saw go wrong: selections refused, interference raising ...)."""
+    import copy
+    import laspy
+    from laspy.lasappender import LasAppender
+    from laspy.vlrs.vlrlist import VLRList
+    ver = version or rng.choice([None, None, "1.4", "1.4", "1.2"])
+    h = rand_header(rng, version=ver, nvlrs=rng.choice([0, 1, 2]))
+    if rng.random() < 0.25:
+        add_extra_dims(rng, h, rng.choice([1, 2]))
+    kv = []
+    if rng.random() < 0.55:
+        kv = known_vlrs(rng)
+        for v in kv:
+            h.vlrs.insert(rng.randrange(len(h.vlrs) + 1), v)
+    ps = h.point_format.size
+    fmt0 = copy.deepcopy(h.point_format)
+    minor = h.version.minor
+    evl = None
+    if minor >= 4 and rng.random() < 0.6:
+        evl = VLRList([rand_vlr(rng, 90) for _ in range(rng.choice([1, 2]))])
+        if rng.random() < 0.3:
+            # an EVLR of 60 + payload = a whole number of records (bytes that decode as records if they are ever taken for points)
+            evl.append(laspy.VLR("whole", 9, "k records long", bytes(rng.randrange(1, 256) for _ in range((-60) % ps or ps))))
+        if rng.random() < 0.25:
+            evl.append(known_vlr(rng, rng.choice(KNOWN_KINDS)))      # a known record placed as EVLR
+    closefd = rng.random() < 0.3
+    via = rng.choice(["class", "open"])
+    twin_h = rand_header(rng, version=str(h.version), fmt=h.point_format.id, nvlrs=rng.choice([0, 1]))
+    for v in (known_vlrs(rng, like=kv) if kv and rng.random() < 0.7 else known_vlrs(rng)):
+        twin_h.vlrs.append(v)
+    twin = write_las(twin_h, sweep_points(rng, twin_h, 3), VLRList([known_vlr(rng, "classification")]) if minor >= 4 else None)
+    desc = dict(describe_header(h), kind=kind, known_vlrs=[known_kind_of(v) for v in kv], evlrs=[len(v.record_data) for v in (evl or [])], closefd=closefd, via=via, ops=[])
+    problems = []
+    orig = b""
+    if kind == "writer":
+        st = LogKeep()
+        obj = open_writer(st, h, via, {"closefd": closefd})
+        put = obj.write_points
+        base = b""
+    else:
+        A = sweep_points(rng, h, rng.choice([0, 1, 3, 8]))
+        orig = rec_bytes(A)
+        base = write_las(h, A, evl)
+        if evl and rng.random() < 0.3:
+            gp = rng.choice([1, ps, 2 * ps + 3])
+            base = with_gap(base, gp) or base
+            desc["gap"] = gp
+        desc["orig_points"] = len(A)
+        st = LogKeep(base)
+        st.seek(0)
+        try:
+            obj = laspy.open(st, mode="a", closefd=closefd) if via == "open" else LasAppender(st, closefd=closefd)
+        except Exception as ex:
+            # a file laspy wrote itself (VLRs of known kinds with payloads that re-serialise to the same bytes) refused by the appender
+            return {"error": f"the appender cannot be opened on a file laspy wrote: {type(ex).__name__}: {ex}", "desc": dict(desc, file_hex=base.hex()[:6000])}
+        if st.ops:
+            problems.append(f"opening the appender wrote to the file: {[(o[0], o[1]) for o in st.ops[:3]]}")
+        st.ops.clear()
+        st.trace.clear()
+        put = obj.append_points
+    n_open_ops = len(st.ops)
+    srcs = [rs_source(rng, h, rng.choice([5, 9, 14]), False)]
+    if rescale:
+        srcs.append(rs_source(rng, h, rng.choice([5, 9]), True))
+    added = {id(s): [] for s in srcs}
+    accepted, acc_bytes, outs, closes, calls = [], b"", [], [], []
+    state = {"edited": False, "closed": 0, "after_close": False, "rescaled": False}
+
+    def do_chunk():
+        nonlocal acc_bytes
+        src = rng.choice(srcs)
+        other = src is not srcs[0]
+        source = rng.choice(RS_SOURCES)
+        sk = rng.choice(RS_SELECTIONS)
+        snap = src.points.array.copy()
+        ix, npix = rs_selection(rng, len(snap), sk)
+        label = f"{source}[{rs_label(ix)}]" + (" (other scaling)" if other and source != "packed" else "") + (" (format object changed since)" if added[id(src)] else "")
+        try:
+            rec = rs_take(src, source, ix)
+        except Exception as ex:
+            # a selection the API refuses (a tuple on a plain record is a multi-dimensional index for numpy) is no chunk
+            desc["ops"].append(f"P {label} select!{type(ex).__name__}")
+            return
+        want = np.ascontiguousarray(snap[npix])
+        pf_now = src.points.point_format
+        same_fmt = format_key(pf_now) == format_key(obj.header.point_format) and snap.dtype.itemsize == obj.header.point_format.size
+        scaled = source != "packed"
+        need_rescale = scaled and other
+        before_file = st.getvalue()
+        sel_ok = len(rec) == len(want) and rec_bytes(rec) == want.tobytes()
+        if not sel_ok:
+            problems.append(f"a selection of a record is not the selected records: {label} of a cloud of {len(snap)} points: the record laspy returns ({len(rec)} points) "
+                            f"does not hold the {len(want)} records numpy selects from the same array")
+        before_rec = rec_bytes(rec)
+        st_scales = (tuple(map(float, getattr(rec, "scales", []))), tuple(map(float, getattr(rec, "offsets", []))))
+        try:
+            put(rec)
+            o = "ok"
+        except Exception as ex:
+            o = "err:" + common.exc_kind(ex)
+        unchanged = st.getvalue() == before_file
+        rec_same = rec_bytes(rec) == before_rec and st_scales == (tuple(map(float, getattr(rec, "scales", []))), tuple(map(float, getattr(rec, "offsets", []))))
+        if state["closed"]:
+            expected = "any"        # accepted (then it must be stored) or refused (then nothing may change)
+        elif len(want) == 0:
+            expected = "ok"
+        elif not same_fmt:
+            expected = "err:ELaspy"
+        else:
+            expected = "ok|overflow" if need_rescale else "ok"
+        outs.append({"label": label, "n": len(want), "outcome": o, "expected": expected, "file_unchanged": unchanged, "rec_unchanged": rec_same, "after_close": bool(state["closed"]),
+                     "zero_d": len(getattr(rec.array, "shape", (1,))) == 0, "need_rescale": need_rescale, "foreign": not same_fmt, "bytes": want.tobytes()})
+        calls.append(len(outs) - 1)
+        desc["ops"].append(f"P {label} -> {o}")
+        if o == "ok" and len(want):
+            if same_fmt:
+                if scaled:
+                    accepted.append(laspy.ScaleAwarePointRecord(want.copy(), copy.deepcopy(fmt0) if format_key(pf_now) == format_key(fmt0) else copy.deepcopy(pf_now),
+                                                                np.array(src.points.scales, dtype=np.float64).copy(), np.array(src.points.offsets, dtype=np.float64).copy()))
+                else:
+                    accepted.append(laspy.PackedPointRecord(want.copy(), copy.deepcopy(fmt0) if format_key(pf_now) == format_key(fmt0) else copy.deepcopy(pf_now)))
+                if need_rescale:
+                    state["rescaled"] = True
+                acc_bytes += want.tobytes()
+            else:
+                accepted.append(None)       # a foreign chunk was accepted: reported through outs
+            if state["closed"]:
+                state["after_close"] = True
+
+    def do_mutate():
+        src = rng.choice(srcs)
+        how = rng.choice(["lasdata.add_extra_dim", "lasdata.add_extra_dim", "format.add_extra_dimension", "lasdata.remove_extra_dim", "lasdata.remove_extra_dim"])
+        try:
+            if how == "lasdata.add_extra_dim":
+                nm = "m" + rand_ascii(rng, 4, [c for c in range(97, 123)])
+                src.add_extra_dim(laspy.ExtraBytesParams(nm, rng.choice(["u2", "u1", "f4", "2i2"])))
+                added[id(src)].append(nm)
+            elif how == "format.add_extra_dimension":
+                nm = "s" + rand_ascii(rng, 4, [c for c in range(97, 123)])
+                src.points.point_format.add_extra_dimension(laspy.ExtraBytesParams(nm, rng.choice(["u2", "u4"])))
+                added[id(src)].append(nm)
+            else:
+                if not added[id(src)]:
+                    return
+                nm = added[id(src)][-1]
+                src.remove_extra_dim(nm)
+                added[id(src)].pop()
+            desc["ops"].append(f"M {how}({nm}) on source {srcs.index(src)}")
+        except Exception as ex:
+            desc["ops"].append(f"M {how} !{type(ex).__name__}")
+            if how.endswith("remove_extra_dim") and nm.startswith("s"):
+                # the dimension exists in the format only (the record was never rebuilt): drop it from the format as it was added
+                try:
+                    src.points.point_format.remove_extra_dimension(nm)
+                    added[id(src)].pop()
+                except Exception:
+                    pass
+
+    def do_interfere():
+        how = rng.choice(RS_INTERFERE)
+        desc["ops"].append(f"I {how}")
+        before = st.getvalue()
+        try:
+            rs_interfere(rng, how, twin, twin_h, h)
+        except Exception as ex:
+            problems.append(f"working on ANOTHER file while the session is open raised: {how}: {type(ex).__name__}: {ex}")
+        if st.getvalue() != before:
+            problems.append(f"working on ANOTHER file while the session is open changed its destination: {how}")
+
+    def do_edit():
+        how = rng.choice(RS_EDITS)
+        # an extra dimension added to the session's own header redefines what a record is; the size guard of the rewrite refuses it unless another
+        # edit happens to compensate the growth of the block byte for byte (a coincidence the generator does not look for): it is the only edit of its session
+        if state.get("fmt_edited") or (how == "add_extra_dim" and state["edited"]):
+            return
+        if how == "add_extra_dim":
+            state["fmt_edited"] = True
+        try:
+            what = rs_edit_header(rng, obj.header, how, ps)
+        except Exception as ex:
+            what = None
+            desc["ops"].append(f"H {how} !{type(ex).__name__}")
+        if what:
+            state["edited"] = True
+            desc["ops"].append("H " + what)
+
+    def snap_before():
+        # the first close: the destination before it and what the session's own header serialises to at that moment (on a deep copy)
+        if state["closed"] or "close0" in state:
+            return
+        hb = None
+        try:
+            tmp = io.BytesIO()
+            copy.deepcopy(obj.header).write_to(tmp)
+            hb = tmp.getvalue()
+        except Exception:
+            pass
+        state["close0"] = {"before": st.getvalue(), "hb": hb, "off": int.from_bytes(st.getvalue()[96:100], "little")}    # the offset the file on disk announces
+
+    def snap_after(o):
+        if "close0" in state and "after" not in state["close0"]:
+            state["close0"].update(after=st.getvalue(), outcome=o)
+
+    def do_close(tag):
+        inner = []
+        snap_before()
+        try:
+            if tag == "C":
+                obj.close()
+            elif tag == "W":
+                with obj:
+                    pass
+            else:
+                with obj:
+                    try:
+                        obj.close()
+                        inner.append("ok")
+                    except Exception as ex:
+                        inner.append("err:" + common.exc_kind(ex))
+                    snap_after(inner[0])
+            o = "ok"
+        except Exception as ex:
+            o = "err:" + common.exc_kind(ex)
+        snap_after(o)
+        closes.extend(inner + [o])
+        calls.extend(["C"] * (2 if tag == "WC" else 1))
+        state["closed"] += 2 if tag == "WC" else 1
+        desc["ops"].append(f"{tag} -> {'/'.join(inner + [o])}")
+
+    for _ in range(rng.randrange(1, 7 if not thorough else 11)):
+        r = rng.random()
+        if r < 0.52:
+            do_chunk()
+        elif r < 0.66:
+            do_mutate()
+        elif r < 0.82:
+            do_interfere()
+        elif edits and r < 0.92:
+            do_edit()
+        else:
+            do_chunk()
+    if kind == "writer" and evl is not None and rng.random() < 0.8:
+        try:
+            obj.write_evlrs(evl)
+            desc["ops"].append(f"E{len(evl)}")
+            calls.append("E")
+        except Exception as ex:
+            desc["ops"].append(f"E{len(evl)} !{type(ex).__name__}")
+            problems.append(f"write_evlrs raised {type(ex).__name__}: {ex}")
+    else:
+        if kind == "writer":
+            evl = None
+    for tag in (ends or rng.choice(RS_ENDS)):
+        if tag == "P":
+            do_chunk()
+            if rng.random() < 0.4:
+                do_chunk()
+        else:
+            do_close(tag)
+    return {"desc": desc, "kind": kind, "base": base, "ops": list(st.ops[n_open_ops:]), "final": st.getvalue(), "ps": ps, "accepted": accepted, "orig": orig,
+            "accepted_bytes": orig + acc_bytes, "rescaled": state["rescaled"], "outs": outs, "closes": closes, "edited": state["edited"],
+            "after_close": state["after_close"], "nclose": state["closed"], "header": h, "evl": evl, "problems": problems, "twin": twin,
+            "calls": calls, "close0": state.get("close0")}
+
+
+def rs_tag(s):
+    """the prefix of the kinds of failing inputs of a rich session: how the session ended decides which class of history it is"""
+    who = "appender" if s["kind"] == "appender" else "writer"
+    if s["after_close"]:
+        return f"{who} used after close: "
+    if s["nclose"] > 1:
+        return f"{who} closed twice: "
+    if s["edited"]:
+        return f"{who} whose own header was edited while open: "
+    return f"{who} session (selections / other files meanwhile): "
+
+
+def rs_outcome_problems(s):
+    """the rules every chunk call of a rich session must obey, whatever the property: [(short kind, explanation)]"""
+    out = []
+    for p in s["problems"]:
+        out.append((p.split(":")[0][:90], p))
+    for o in s["outs"]:
+        if o["outcome"] != "ok" and not o["file_unchanged"]:
+            out.append(("a refused chunk left a trace in the file", f"{o['label']}: {o['outcome']} but the destination changed"))
+        if not o["rec_unchanged"]:
+            out.append(("the caller's record was modified", f"{o['label']}: {o['outcome']}; the record handed over is not what it was (bytes / scales / offsets)"))
+        e = o["expected"]
+        if e == "any" and o.get("foreign") and o["n"] and o["outcome"] == "ok":
+            out.append(("a chunk of another point format was not refused", f"{o['label']} ({o['n']} points): {o['outcome']}"))
+        elif e == "err:ELaspy" and o["outcome"] != e:
+            out.append(("a chunk of another point format was not refused", f"{o['label']} ({o['n']} points): {o['outcome']}"))
+        elif e == "ok" and o["outcome"] != "ok":
+            out.append(("a chunk of the file's format was refused", f"{o['label']} ({o['n']} points): {o['outcome']}"))
+        elif e == "ok|overflow" and o["outcome"] not in ("ok", "err:EOverflow"):
+            out.append(("a chunk of the file's format was refused", f"{o['label']} ({o['n']} points{', a 0-d record' if o.get('zero_d') else ''}): {o['outcome']}"))
+    return out
+
+
+def rs_world_problems(s):
+    """real-world coordinates: every accepted scale-aware chunk, whatever its scaling, must be stored within half a grid step of the file
+    (plus float rounding) of x = X * scale + offset of the SOURCE. Judged on the bytes of the final file. Returns a list of strings."""
+    try:
+        d = parse_raw(s["final"])
+        recs = raw_records(s["final"])
+    except ValueError as ex:
+        return []
+    ps = d["psize"]
+    if ps != s["ps"] or any(a is None for a in s["accepted"]):
+        return []
+    pos = len(s["orig"]) // ps
+    fs, fo = d["scales"], d["offsets"]
+    out = []
+    for a in s["accepted"]:
+        n = len(a.array)
+        if (pos + n) * ps > len(recs):
+            break
+        got = np.frombuffer(recs[pos * ps:(pos + n) * ps], dtype=a.array.dtype)
+        sc = getattr(a, "scales", None)
+        for j, kx in enumerate("XYZ"):
+            if sc is None:
+                if not np.array_equal(got[kx], a.array[kx]):
+                    out.append(f"{kx} of a plain record stored as {got[kx][:3].tolist()} instead of {a.array[kx][:3].tolist()}")
+                continue
+            want = a.array[kx].astype(np.float64) * float(a.scales[j]) + float(a.offsets[j])
+            have = got[kx].astype(np.float64) * float(fs[j]) + float(fo[j])
+            tol = 0.5 * abs(float(fs[j])) * (1 + 1e-9) + 8 * np.spacing(np.maximum(np.maximum(np.abs(want), np.abs(have)), max(abs(float(fo[j])), abs(float(a.offsets[j])), 1e-300)))
+            bad = np.flatnonzero(np.abs(want - have) > tol)
+            if len(bad):
+                i = int(bad[0])
+                out.append(f"{kx.lower()} of point {pos + i} is {have[i]!r} in the file, the appended record said {want[i]!r} (file scale {fs[j]}, record scale {float(a.scales[j])})")
+                break
+        pos += n
+    return out
+
+
+def rs_aops_cmd(s):
+    """the c06 driver's command for the CALLS of a rich append session, closes included (arun_ops of Model/LasEnd.v with aclose_t): None when the
+    session is outside the model (a chunk had to be rescaled, the appender's own header was edited, the file is large)"""
+    if "error" in s or s["kind"] != "appender" or s["edited"] or s["rescaled"] or len(s["base"]) > 60000 or "C" not in s["calls"]:
+        return None
+    toks = []
+    for c in s["calls"]:
+        if c == "C":
+            toks.append("C")
+        else:
+            o = s["outs"][c]
+            if o["n"] and (o["foreign"] or o["outcome"] != "ok"):
+                # refused (another format; not representable in the file's grid; the appender is closed): whether the refusal is right is
+                # judged by the outcome rules, here it is a call that leaves no trace
+                toks.append("F" + common.hexb(bytes(o["n"] * s["ps"])))
+            else:
+                toks.append("T" + common.hexb(o["bytes"]))
+    return f"aops {common.hexb(s['base'])} {s['ps']} " + " ".join(toks)
+
+
+def rs_grw_cmd(s):
+    """the c06 driver's command for the header rewrite of the FIRST close of a rich session (guarded_rewrite of Model/LasEnd.v): the size of the
+    block first put on disk, what the session's own header serialises to when it is closed, the destination before the close"""
+    c0 = s.get("close0") if "error" not in s else None
+    if not c0 or c0.get("hb") is None or "after" not in c0 or len(c0["before"]) > 60000:
+        return None
+    return f"grw {c0['off']} {common.hexb(c0['hb'])} {common.hexb(c0['before'])}"
+
+
+def rs_grw_problem(s, mo):
+    """compares the model's answer with what the first close of the session did: the decision (refused with LaspyException leaving the
+    destination alone / accepted) and, accepted, every byte from the first point on and the length (a writer; an appender re-emits its EVLRs there)"""
+    c0 = s["close0"]
+    off = c0["off"]
+    if mo.startswith("err"):
+        if c0["outcome"] == "ok":
+            return f"the header block now takes {len(c0['hb'])} bytes, {off} were put on disk when the session was opened: the model refuses the rewrite, close() returned normally"
+        if c0["after"][off:] != c0["before"][off:] and s["kind"] == "writer":
+            return "close() refused the rewrite but the bytes behind the header changed"
+        return None
+    if c0["outcome"] != "ok":
+        # close may fail for another reason than the size of the block (a closed destination ...): only a size refusal is compared
+        return f"the header block still takes {off} bytes: the model rewrites it in place, close() raised {c0['outcome']}" if c0["outcome"] == "err:ELaspy" else None
+    if s["kind"] == "writer":
+        want = common.unhex(mo.split(" ")[1])
+        if want[off:] != c0["after"][off:] or len(want) != len(c0["after"]):
+            return f"after the rewrite the bytes from the first point on (offset {off}) / the length differ from the model's ({len(c0['after'])} vs {len(want)} bytes)"
+    return None
+
+
+def rs_wrun_cmd(s):
+    """the main driver's wrun command (Model/Las.v writer: chunks, EVLRs, closes in the order they were called - chunks after a close are refused
+    there, a second close rewrites the same header) for a rich WRITER session; None when the session is outside the model (a chunk had to be
+    rescaled, the writer's own header was edited)"""
+    if "error" in s or s["kind"] != "writer" or s["edited"] or any(o["need_rescale"] and o["n"] for o in s["outs"]) or "C" not in s["calls"]:
+        return None
+    h = s["header"]
+    toks = []
+    for c in s["calls"]:
+        if c == "C":
+            toks.append("C")
+        elif c == "E":
+            toks.append("E" + vlrs_tok(s["evl"]))
+        else:
+            o = s["outs"][c]
+            toks.append("P" + ("F" + common.hexb(bytes(o["n"] * s["ps"])) if o["foreign"] and o["n"] else "T" + common.hexb(o["bytes"])))
+    return f"wrun {assoc_tok(header_assoc(h))} {vlrs_tok(h.vlrs)} {h.point_format.id} {s['ps']} " + " ".join(toks)
+
+
+def rs_wrun_problem(s, mo):
+    """model vs implementation on a rich writer session: the outcome of every chunk call (accepted / refused) and the bytes of the file"""
+    t = mo.split(" ")
+    if len(t) != 2:
+        return f"the model could not run the session: {mo[:80]}"
+    m_outs = t[0].split(",")
+    i_outs = []
+    k = 0
+    for c in s["calls"]:
+        if c in ("C", "E"):
+            k += 1
+            continue
+        o = s["outs"][c]
+        mo_k = m_outs[k] if k < len(m_outs) else "?"
+        k += 1
+        if (o["outcome"] == "ok") != (mo_k == "ok"):
+            return f"chunk {o['label']} ({o['n']} points{', after close' if o['after_close'] else ''}): laspy {o['outcome']}, model {mo_k}"
+    if common.unhex(t[1]) != s["final"]:
+        return f"the file ({len(s['final'])} bytes) is not the model's ({len(common.unhex(t[1]))} bytes)"
+    return None
